@@ -4,6 +4,9 @@ import RichModel.Lemmas.WrapSplit
 import RichModel.Lemmas.WrapFold
 import RichModel.Lemmas.WrapKept
 import RichModel.Lemmas.WrapFullFold
+import RichModel.Lemmas.WrapNorm
+import RichModel.Lemmas.WrapTabs
+import RichModel.Lemmas.WrapWhole
 import RichModel.Props.C13
 /-!
 # C02 — word wrapping keeps every character, in order, with its own style
@@ -18,21 +21,26 @@ Reference semantics (C05): `Text.view t : List (Char × List σ)` — every char
 apply to it, base style first, then the covering spans in span order ("later spans win" is the order of that
 list).  `nsv v` is the sub-list of the non-whitespace characters (Python's `str.isspace` class, generated).
 
-Variants.  `WVariant.repaired` = rich 9.10.0 with `pending_fixes/C05-divide-order-alias.diff` and
-`pending_fixes/C02-justify-negative-pad.diff`; `WVariant.released` = rich 9.10.0 as released (the first repair is commit aad03fe in /repo by now).  The `old_…` theorems
-exhibit, by evaluation, a concrete input on which the released code violates the statement proved for the repaired code.
+Variants.  `WVariant.repaired` = the code in /repo today: rich 9.10.0 with the two repairs this machinery asked for
+(`fix:` commits aad03fe "Text.divide keeps the order of equal spans" — found by C05, reproduced through `wrap` here —
+and 90b2e96 "Lines.justify does not pad by a negative amount" — found by C02, `pending_fixes/C02-justify-negative-pad.diff`);
+`WVariant.released` = rich 9.10.0 as released.  The `old_…` theorems exhibit, by evaluation, a concrete input on which
+the released code violates the statement proved for the repaired code; the harness passes the flags that match the code
+it runs against, so a regression of either repair shows up as a correspondence mismatch and a direct-evaluation failure.
 
 Justify "full" rebuilds every line but the last as `Text("").join(tokens)`, which puts the null style `""` of
 `Text("")` in front of every effective style; statements that include "full" therefore compare styled strings after
 erasing the null style (`dropNull`: `""` is the identity of rich's style algebra), the statements for the other four
 modes are exact.
 
-Open obligations (modelled, compared with rich on every run, evaluated directly on rich; not proved here):
-* texts containing tabs (`expandTabs`, owned by C05, has no proved `view` lemma; it re-applies the base style):
-  the whole-text theorems `wrap_fold_keeps_…_partial` assume `'\t' ∉ t.plain`; the per-paragraph theorems
-  (`wrapLine_…`) speak about the paragraph *after* tab expansion and are unconditional;
-* `wrapLine_style_preserved` (every overflow mode) is proved for the four justify modes that treat lines separately;
-  for "full" with overflow other than "fold" only `wrap_lines_fit` is proved.
+Tab expansion (`Text.expand_tabs`) re-applies the base style to every character; the headline theorem
+`wrap_fold_keeps_nonspace` therefore compares styles in the normal form `normView` (null style erased, adjacent
+repetitions merged); the sharper comparisons hold under the stated extra hypotheses.
+
+Open obligation (modelled, compared with rich on every run, evaluated directly on rich; not proved here):
+* `wrapLine_style_preserved` (every overflow mode) is proved for the four justify modes that treat lines separately
+  and speaks about the paragraph after tab expansion; for justify "full" with an overflow other than "fold" only
+  `wrap_lines_fit` is proved.
 -/
 namespace RichModel.C02
 open RichModel RichModel.Text RichModel.Wrap
@@ -194,66 +202,75 @@ theorem wrapLine_fold_keeps_every_justify [BEq σ] [LawfulBEq σ] (cw : Char →
   funext l
   rw [view_eq_annot, annot_map_fst]
 
-/-- the induction over the paragraphs of `Text.wrap`, for any comparison `N` of styled strings that respects
-concatenation -/
-theorem wrap_over_paragraphs [BEq σ] (cw : Char → Nat) (A : StyleAlg σ) (t : Text σ) (ht : Inv t) (w : Nat)
-    (justify : Option Justify) (overflow : Option Overflow) (tabSize : Option Nat) (noWrap : Option Bool)
-    (htab : '\t' ∉ t.plain) (N : List (Char × List σ) → List (Char × List σ))
-    (hN : ∀ a b, N (a ++ b) = N a ++ N b)
-    (hpar : ∀ P : Text σ, Inv P → ∃ out, wrapLine WVariant.repaired cw A P w (wrapJustifyOf t justify)
-        (wrapOverflowOf t overflow) (noWrapOf t overflow noWrap) = .ok out ∧
-        N (nsv (out.flatMap Text.view)) = N (nsv P.view)) :
-    ∃ out, wrap WVariant.repaired cw A t w justify overflow tabSize noWrap = .ok out ∧
-      N (nsv (out.flatMap Text.view)) = N (nsv t.view) := by
-  obtain ⟨ps, hsplit, hink, hps⟩ := split_newline_ink t ht
-  unfold wrap
-  rw [show WVariant.repaired.text = Variant.repaired from rfl, hsplit]
-  simp only [bind, Except.bind]
-  rw [← hink]
-  clear hink hsplit
-  induction ps with
-  | nil => exact ⟨[], rfl, rfl⟩
-  | cons P ps ih =>
-    obtain ⟨hP, _, hPc⟩ := hps P (by simp)
-    obtain ⟨more, hmore, hmink⟩ := ih (fun l hl => hps l (List.mem_cons_of_mem _ hl))
-    obtain ⟨out, hout, hoink⟩ := hpar P hP
-    have hnt : P.plain.contains '\t' = false := by
-      rw [Bool.eq_false_iff]; intro hc
-      exact htab (hPc _ (List.contains_iff_mem.mp hc))
-    refine ⟨out ++ more, ?_, ?_⟩
-    · simp only [wrapParagraphs, hnt, Bool.false_eq_true, if_false, bind, Except.bind, hout, hmore]
-    · simp only [List.flatMap_append, List.flatMap_cons, nsv_append, hN, hoink, hmink]
+/-- **Word wrapping keeps every character, in order, with its own style** — the whole of `Text.wrap` (split on
+newlines, tab expansion with any tab size ≥ 1, division at the computed offsets, `rstrip_end`, justification, final
+crop), **every justify mode**, effective overflow "fold", wrapping enabled, any width ≥ 2, any text, any span set:
+the call succeeds, and the non-whitespace characters of all produced lines, concatenated, are exactly those of the
+text — none dropped, duplicated or reordered — each with the effective style it had before wrapping.  Styles are
+compared in the normal form `normView` (null style erased, adjacent repetitions merged), i.e. up to the two laws of
+rich's style algebra that `wrap` itself relies on when `expand_tabs` re-applies the base style and `Text("").join`
+puts the null style in front; for texts without tabs and justify other than "full" the comparison is exact
+(`wrap_fold_keeps_styles_exact`). -/
+theorem wrap_fold_keeps_nonspace [BEq σ] [LawfulBEq σ] (cw : Char → Nat) (hsp : cw ' ' = 1) (h2 : ∀ c, cw c ≤ 2)
+    (A : StyleAlg σ) (t : Text σ) (ht : Inv t) (w : Nat) (hw : 2 ≤ w) (justify : Option Justify)
+    (overflow : Option Overflow) (ts : Nat) (hts : 0 < ts) (noWrap : Option Bool)
+    (hov : wrapOverflowOf t overflow = Overflow.fold) (hnw : noWrapOf t overflow noWrap = false) :
+    ∃ out, wrap WVariant.repaired cw A t w justify overflow (some ts) noWrap = .ok out ∧
+      normView A (nsv (out.flatMap Text.view)) = normView A (nsv t.view) ∧
+      (out.flatMap (·.plain)).filter (fun c => !pyIsSpace c) = t.plain.filter (fun c => !pyIsSpace c) := by
+  have hmain : ∃ out, wrap WVariant.repaired cw A t w justify overflow (some ts) noWrap = .ok out ∧
+      normView A (nsv (out.flatMap Text.view)) = normView A (nsv t.view) := by
+    apply wrap_over_paragraphs cw A t ht w justify overflow (some ts) noWrap (normView A) (normView_append A)
+    intro P hP _
+    rw [hov, hnw]
+    obtain ⟨Q, hQ, hQi, _, hno, hyes⟩ := expandTabs_ink' P hP ts hts
+    by_cases hc : P.plain.contains '\t' = true
+    · obtain ⟨out, h1, h3, _⟩ := wrapLine_fold_keeps_every_justify cw hsp h2 A w hw (wrapJustifyOf t justify) Q hQi
+      refine ⟨Q, out, by rw [if_pos hc]; exact hQ, h1, ?_⟩
+      rw [normView_of_dropNull A _ _ h3, hyes hc]
+      exact normView_cons_base A P.style _ (nsv_styles_start_with_base P)
+    · obtain ⟨out, h1, h3, _⟩ := wrapLine_fold_keeps_every_justify cw hsp h2 A w hw (wrapJustifyOf t justify) P hP
+      exact ⟨P, out, by rw [if_neg hc], h1, normView_of_dropNull A _ _ h3⟩
+  obtain ⟨out, h1, h3⟩ := hmain
+  refine ⟨out, h1, h3, ?_⟩
+  have key : ∀ (v : List (Char × List σ)), (normView A (nsv v)).map (·.1) = (v.map (·.1)).filter (fun c => !pyIsSpace c) := by
+    intro v; simp only [normView, nsv, List.map_map, List.filter_map]; rfl
+  have h5 := congrArg (List.map (·.1)) h3
+  rw [key, key, view_eq_annot, annot_map_fst] at h5
+  rw [← h5]
+  congr 1
+  simp only [List.map_flatMap]
+  congr 1
+  funext l
+  rw [view_eq_annot, annot_map_fst]
 
-/-- **Whole text, every justify mode** (`Text.wrap` as called: split on newlines, wrap every paragraph): with the
-effective overflow "fold" and wrapping enabled, for a text without tab characters, the non-whitespace characters of all
-produced lines are exactly those of the text, in order, each with the effective style it had (modulo the null style).
-`_partial`: the tab-free hypothesis is the open obligation named in the header. -/
-theorem wrap_fold_keeps_nonspace_partial [BEq σ] [LawfulBEq σ] (cw : Char → Nat) (hsp : cw ' ' = 1) (h2 : ∀ c, cw c ≤ 2)
+/-- for a text without tab characters the null style is the only thing to erase, in every justify mode -/
+theorem wrap_fold_keeps_nonspace_notabs [BEq σ] [LawfulBEq σ] (cw : Char → Nat) (hsp : cw ' ' = 1) (h2 : ∀ c, cw c ≤ 2)
     (A : StyleAlg σ) (t : Text σ) (ht : Inv t) (w : Nat) (hw : 2 ≤ w) (justify : Option Justify)
     (overflow : Option Overflow) (tabSize : Option Nat) (noWrap : Option Bool)
     (hov : wrapOverflowOf t overflow = Overflow.fold) (hnw : noWrapOf t overflow noWrap = false)
     (htab : '\t' ∉ t.plain) :
     ∃ out, wrap WVariant.repaired cw A t w justify overflow tabSize noWrap = .ok out ∧
       dropNull A (nsv (out.flatMap Text.view)) = dropNull A (nsv t.view) := by
-  apply wrap_over_paragraphs cw A t ht w justify overflow tabSize noWrap htab (dropNull A) (dropNull_append A)
-  intro P hP
+  apply wrap_over_paragraphs cw A t ht w justify overflow tabSize noWrap (dropNull A) (dropNull_append A)
+  intro P hP hPc
   rw [hov, hnw]
   obtain ⟨out, h1, h3, _⟩ := wrapLine_fold_keeps_every_justify cw hsp h2 A w hw (wrapJustifyOf t justify) P hP
-  exact ⟨out, h1, h3⟩
+  exact ⟨P, out, no_tab_paragraph t P tabSize htab hPc, h1, h3⟩
 
-/-- the same with the styles compared **exactly**, for the four justify modes that treat lines separately -/
-theorem wrap_fold_keeps_styles_exact_partial [BEq σ] (cw : Char → Nat) (hsp : cw ' ' = 1) (h2 : ∀ c, cw c ≤ 2)
+/-- … and for the four justify modes that treat lines separately the styles are compared **exactly** -/
+theorem wrap_fold_keeps_styles_exact [BEq σ] (cw : Char → Nat) (hsp : cw ' ' = 1) (h2 : ∀ c, cw c ≤ 2)
     (A : StyleAlg σ) (t : Text σ) (ht : Inv t) (w : Nat) (hw : 2 ≤ w) (justify : Option Justify)
     (overflow : Option Overflow) (tabSize : Option Nat) (noWrap : Option Bool)
     (hov : wrapOverflowOf t overflow = Overflow.fold) (hnw : noWrapOf t overflow noWrap = false)
     (hj : wrapJustifyOf t justify ≠ Justify.full) (htab : '\t' ∉ t.plain) :
     ∃ out, wrap WVariant.repaired cw A t w justify overflow tabSize noWrap = .ok out ∧
       nsv (out.flatMap Text.view) = nsv t.view := by
-  apply wrap_over_paragraphs cw A t ht w justify overflow tabSize noWrap htab id (fun _ _ => rfl)
-  intro P hP
+  apply wrap_over_paragraphs cw A t ht w justify overflow tabSize noWrap id (fun _ _ => rfl)
+  intro P hP hPc
   rw [hov, hnw]
   obtain ⟨out, h1, h3, _⟩ := wrapLine_fold_keeps cw hsp h2 A w hw _ hj P hP
-  exact ⟨out, h1, h3⟩
+  exact ⟨P, out, no_tab_paragraph t P tabSize htab hPc, h1, h3⟩
 
 /-! ## every overflow mode: each character that is output carries the style it had -/
 
